@@ -7,7 +7,11 @@ behavioural  : option lattice of every class -> real get_config() vs model getCo
                rebuild routes vs the model's verdict and rebuilt fields.
 clause oracle: rebuilt quantizer must not raise and must give bit-identical outputs / scale
                (and gradients) on probe tensors; a failure is attributed to the constructor
-               option(s) whose restoration alone repairs it.
+               option(s) whose restoration alone repairs it.  Every route is run TWICE on the SAME
+               configuration object (taken once from get_config() / serialize_keras_object): the
+               second rebuild must equal the first, and no route may modify the configuration it
+               is handed (a from_config that pops a key damages every later rebuild from the
+               same dictionary).
 """
 import inspect
 
@@ -39,6 +43,23 @@ EXTRA = {
                         "use_ste": False}],
     "bernoulli": [{"alpha": "auto", "temperature": 0.25, "use_real_sigmoid": False}],
 }
+# frozen (post-training) scales: scalar and per-channel, under both auto alphas
+EXTRA["quantized_bits"] += [
+    {"bits": 4, "alpha": "auto_po2", "post_training_scale": L.A2},
+    {"bits": 4, "alpha": "auto", "post_training_scale":
+     np.array([0.5, 1.0, 2.0, 0.25, 1.0, 4.0], dtype=np.float32)},
+    {"bits": 4, "alpha": "auto_po2", "scale_axis": 1, "post_training_scale":
+     np.array([0.5, 1.0, 2.0, 0.25, 1.0, 4.0], dtype=np.float32)},
+]
+
+
+def _cfg_canon(cfg):
+  """value-level canonical form of a configuration dictionary (ndarray and list of the same
+  numbers are identified: the model does not distinguish them either)"""
+  try:
+    return L.canon_env(L.enc_env(cfg))
+  except Exception as e:  # pylint: disable=broad-except
+    return ["<unencodable: %s>" % L.err_tag(e), sorted(map(str, cfg))]
 
 
 def _build(cls, kw):
@@ -164,31 +185,62 @@ def run(run: core.Run, tier: str):
       rec["call_raises"] = any(isinstance(v, tuple) and v and v[0] == "raises" for v in o0.values())
       if rec["call_raises"]:
         run.count("original_call_raises")
-      routes = {}
+      routes, routes2, mutated = {}, {}, {}
       first_ok = None
+      # ONE configuration object per kind of route, reused for both rebuilds of the route (and
+      # cfg0 for both dictionary routes), never copied: what a caller holding a config does
+      cfg0 = q.get_config()
+      snap0 = _cfg_canon(cfg0)
+      try:
+        ser = tf.keras.utils.serialize_keras_object(q)
+        snap_ser = _cfg_canon(ser["config"]) if isinstance(ser, dict) and "config" in ser else None
+      except Exception as e:  # pylint: disable=broad-except
+        ser, snap_ser = e, None
       for route in ("from_config", "get_quantizer", "keras"):
-        try:
-          if route == "from_config":
-            q2 = cls.from_config(dict(q.get_config()))
-          elif route == "get_quantizer":
-            q2 = Q.get_quantizer({"class_name": name, "config": dict(q.get_config())})
+        for attempt in (1, 2):
+          dest = routes if attempt == 1 else routes2
+          try:
+            if route == "from_config":
+              q2 = cls.from_config(cfg0)
+            elif route == "get_quantizer":
+              q2 = Q.get_quantizer({"class_name": name, "config": cfg0})
+            else:
+              if isinstance(ser, Exception):
+                raise ser
+              q2 = tf.keras.utils.deserialize_keras_object(ser, custom_objects={name: cls})
+            a2 = L.attrs(q2, names)
+            if attempt == 2 and "ok" in routes.get(route, {}) and a2 == routes[route]["ok"]:
+              # same stored fields as the first rebuild of this route: same verdict
+              dest[route] = {"ok": a2, "kinds": routes[route]["kinds"]}
+            elif first_ok is not None and a2 == first_ok[0]:
+              kinds = first_ok[1]          # identical stored fields as the first route
+              o2 = L.observe(q2, xs[:1], phases)
+              if L.obs_diff({k: v for k, v in o0.items() if k.endswith("_0")}, o2) - kinds:
+                kinds = kinds | L.obs_diff({k: v for k, v in o0.items() if k.endswith("_0")}, o2)
+              dest[route] = {"ok": a2, "kinds": sorted(kinds)}
+            else:
+              o2 = L.observe(q2, xs, phases)
+              kinds = L.obs_diff(o0, o2)
+              if first_ok is None:
+                first_ok = (a2, kinds)
+              dest[route] = {"ok": a2, "kinds": sorted(kinds)}
+          except Exception as e:  # pylint: disable=broad-except
+            dest[route] = {"err": L.err_tag(e), "msg": str(e)[:160]}
+          # the route must leave the configuration it was handed as it found it
+          if route == "keras":
+            now = _cfg_canon(ser["config"]) if snap_ser is not None else None
+            if now != snap_ser:
+              mutated.setdefault(route, []).append(attempt)
+              rec.setdefault("mutation", {"before": snap_ser, "after": now})
+              snap_ser = now
           else:
-            d = tf.keras.utils.serialize_keras_object(q)
-            q2 = tf.keras.utils.deserialize_keras_object(d, custom_objects={name: cls})
-          a2 = L.attrs(q2, names)
-          if first_ok is not None and a2 == first_ok[0]:
-            kinds = first_ok[1]          # identical stored fields as the first route
-            o2 = L.observe(q2, xs[:1], phases)
-            if L.obs_diff({k: v for k, v in o0.items() if k.endswith("_0")}, o2) - kinds:
-              kinds = kinds | L.obs_diff({k: v for k, v in o0.items() if k.endswith("_0")}, o2)
-          else:
-            o2 = L.observe(q2, xs, phases)
-            kinds = L.obs_diff(o0, o2)
-            if first_ok is None:
-              first_ok = (a2, kinds)
-          routes[route] = {"ok": a2, "kinds": sorted(kinds)}
-        except Exception as e:  # pylint: disable=broad-except
-          routes[route] = {"err": L.err_tag(e), "msg": str(e)[:160]}
+            now = _cfg_canon(cfg0)
+            if now != snap0:
+              mutated.setdefault(route, []).append(attempt)
+              rec.setdefault("mutation", {"before": snap0, "after": now})
+              snap0 = now
+      rec["routes2"] = routes2
+      rec["mutated"] = mutated
       rec["routes"] = routes
       # attribution of an observable difference to constructor options
       ok = [r for r in routes.values() if "ok" in r]
@@ -252,6 +304,40 @@ def run(run: core.Run, tier: str):
         mirrored = False
     if "diff_fields" in rec and o["diff_fields"] is not None and rec["diff_fields"] != o["diff_fields"]:
       mirrored = False
+    # ---- second rebuild from the SAME configuration object: the model is a pure function of the
+    #      configuration, so it gives the first answer again
+    for route, mkey in (("from_config", "from_config"), ("get_quantizer", "get_quantizer"),
+                        ("keras", "from_config")):
+      r, m = rec["routes2"][route], o[mkey]
+      run.compared += 1
+      run.count("route2_%s_%s" % (route, "ok" if "ok" in r else r["err"]))
+      if ("err" in r) != ("err" in m) or ("err" in r and r["err"] != m["err"]):
+        run.disagree("route.%s.second" % route, case, r.get("err", "ok"), m.get("err", "ok"))
+        if "err" in r:
+          run.violate("rebuild_raises", {"class": name, "error": r["err"], "rebuild": "second", "route": route},
+                      {"kw": line["kw"], "msg": r.get("msg"),
+                       "replay": "q=%s(**kw); c=q.get_config(); %s.from_config(c); %s.from_config(c)"
+                                 % (name, name, name)}, mirrored=False)
+      elif "ok" in r:
+        if L.canon_env(list(r["ok"].items())) != L.canon_env(m["ok"]):
+          run.disagree("route.%s.second.fields" % route, case, L.canon_env(list(r["ok"].items())),
+                       L.canon_env(m["ok"]))
+        first = rec["routes"][route]
+        if "ok" in first and r["ok"] != first["ok"]:
+          lost = [n for n in r["ok"] if r["ok"][n] != first["ok"][n]]
+          k2 = set(r["kinds"])
+          clause = ("same_output" if k2 & {"output", "scale"} else "same_gradient") if k2 else "second_rebuild_equal"
+          run.count("second_rebuild_differs_%s" % name)
+          run.violate(clause, {"class": name, "field": "+".join(lost), "rebuild": "second", "route": route},
+                      {"kw": line["kw"], "differs": sorted(k2), "fields_changed_vs_first_rebuild": lost,
+                       "replay": "q=%s(**kw); c=q.get_config(); q1=%s.from_config(c); q2=%s.from_config(c); "
+                                 "q2(x) vs q(x)" % (name, name, name)}, mirrored=False)
+    for route, attempts in rec["mutated"].items():
+      run.count("config_modified_%s" % route)
+      run.violate("config_unmodified", {"class": name, "route": route},
+                  {"kw": line["kw"], "rebuilds_that_modified_it": attempts, **rec.get("mutation", {}),
+                   "replay": "q=%s(**kw); c=q.get_config(); before=copy.deepcopy(c); <route>(c); c vs before" % name},
+                  mirrored=False)
     # ---- clauses on the real behaviour
     errs = sorted({r["err"] for r in rec["routes"].values() if "err" in r})
     for e in errs:
